@@ -1,14 +1,22 @@
 ID = "C08"
 LEVEL = "other"
-CONTRACT_MODULES = []
-FUNCTIONS = []
+CONTRACT_MODULES = ["contracts.table_sel"]
+FUNCTIONS = ["Table._get_row_indices@value-range", "Table._get_row_indices@name-span"]
 RAC = "rac/c08.py"
 RAC_BUDGET = {"quick": 60, "thorough": 900}
 DESIGN_REF = "DESIGN.md section 4, C08"
-TECHNIQUE = "run-time contracts against a reference selector (bounded); deductive part under construction"
-TRUSTED = ["numpy", "re"]
-ASSUMPTIONS = ["selectors whose offset shifts outside the table are not constrained by the statement"]
-BOUNDED = ["everything (this revision)"]
-EXPLANATION = "bounded run-time contract check"
-LEVEL_TEXT = "bounded"
-LEVEL_NOTE = "bounded"
+TECHNIQUE = ("contract-based deductive verification of Table._get_row_indices one selector form per variant contract (value ranges and "
+             "name spans; pyvc selector engine with numpy-lite masks and np.where; z3) + run-time contracts against a reference selector "
+             "for every selector form, composition and many-name tables")
+TRUSTED = ["numpy-lite: element-wise comparison of a column with a bound as an uninterpreted order, & as conjunction, np.where(mask)[0] as the "
+           "ascending sequence of the mask's positions; numpy and re themselves", "Table._get_row_index is assumed by contract here (decided under C07)", "z3 / cvc5"]
+ASSUMPTIONS = ["selectors whose offset shifts outside the table are not constrained by the statement",
+               "the constructs of the other selector forms are unreachable under each variant's precondition (obligations of kind `unreachable`)"]
+BOUNDED = ["regular-expression selectors with ::count and offsets (Table._get_regexp_indices: loop over a set of names -- checked at run time on "
+           "tables with 12..30 distinct names so that set order differs from table order), position lists, masks, rows[s1, s2] == rows[s1].rows[s2], "
+           "rows.indices / rows.mask consistency: run-time only"]
+EXPLANATION = ("proved: for a value range lo:hi:'col' the result denotes exactly the rows with lo <= col <= hi (each bound optional, zero "
+               "included), in ascending order, in all four bound combinations; for a name span a:b it is the slice from the position of a to "
+               "the position of b inclusive, either side optional")
+LEVEL_TEXT = "Mixed: two selector forms proved (31 obligations incl. unreachability of the other forms), the rest run-time contracts. Never claimed as proof."
+LEVEL_NOTE = "See TRUSTED / BOUNDED in the evidence file."
